@@ -155,6 +155,8 @@ def run(ctx: common.Ctx):
     res = cv_checks.explore(ctx, ctx.n(70, 1500),
                             dict(base, exception=None, per_tx=(1, 4), as_frac=1.0, nested_frac=1.0))
     judge(ctx, res, 'nested-in-splicing')
+    # the same circRNA record in two GVF files: entry strings unique in the whole FASTA
+    cv_checks.circ_dup_stream(ctx, ctx.n(60, 800))
     ctx.coverage['worker_stats'] = {'trypsin-noexc': s1, 'lookahead-enzymes': s2, 'special-codons': s3,
                                     'w2f-tryptophan-clusters': s4, 'synonymous-pair-in-one-codon': s5,
                                     'nested-in-splicing': ctx.coverage['worker_stats']}
